@@ -1,5 +1,6 @@
 import GomlVerif.Model.ParserFuel
 import GomlVerif.Lemmas.GrammarStep
+import GomlVerif.Lemmas.GrammarTermCheck
 import GomlVerif.Gen.MatchDispatch
 /-!
 # C04 — the logic that is supposed to keep the parser from hanging
@@ -730,11 +731,39 @@ theorem fileItems_ends_at_eof : ∀ (n : Nat) (s : PS), (run n .fileItems s).oof
         simp only [ho, Bool.false_eq_true, ↓reduceIte] at h ⊢
         exact ih _ h
 
-/-- **`file()` consumes every token** (for every token list): if the model's call budget did not run out
-(checked on every input of the tie; `grammar_terminates` is the missing piece, see `Props/C12.lean`), the
-cursor ends at the end of the input and the output holds at least one `Advance` per token. -/
-theorem file_consumes_all_tokens_partial (toks : List Nat) (h : (parseItems toks).oof = false) :
+/-- **`grammar_progress`: what every step does to the potential** `mu s = (len − pos)·257 + fuel` (0 at the end of the
+input). A look outside a dead state (`fuel = 0` or at the end) lowers it; a dead look answers `eof` and stays dead; an
+`advance` inside the input lowers it; no grammar function, for any token list, fuel level or budget, raises it. The literal
+"every loop iteration consumes a token" is false at the fuel boundary (`while p.at(#) { attribute(p) }` entered with one
+unit of fuel consumes nothing and leaves at the next test); "advances, spends fuel, or stops" is what holds, and
+`all_checked` (decided per function on the abstract interpreter `abs`) is the statement that every loop and every call
+cycle of the grammar is built that way. -/
+theorem grammar_progress :
+    (∀ (s : PS) (n : Nat), ¬ Dead s → mu (look s n).2 < mu s) ∧
+    (∀ (s : PS) (n : Nat), Dead s → (look s n).1 = T_Eof ∧ Dead (look s n).2) ∧
+    (∀ (s : PS), s.isEof = false → mu (doAdvance s) < mu s ∧ ∀ m, mu (doAdvErr s m) < mu s) ∧
+    (∀ (n : Nat) (f : Fn) (s : PS), mu (run n f s) ≤ mu s) ∧
+    allFns.all (checkFn theCfg) = true :=
+  ⟨look_live, look_dead, fun s h => ⟨mu_bump_lt s h, fun _ => mu_bump_lt s h⟩, run_mu_le, all_checked⟩
+
+/-- **`grammar_terminates`: the fuel-bounded model never runs out of its budget**, for every token list:
+`budget len = 40·257·(len+1) + 41` bounds the depth of calls and loop iterations of `file` (linear in the number of
+tokens, constant `40·257 = 10 280` per token), so no fuel beyond it is ever needed. More generally any reachable grammar
+function started with `n ≥ ranks · mu s + rank f + 1` returns without running out (`run_terminates`). This replaces the
+"searched, not proved" argument for `match_arm_list` (whose progress relies on `expect_expr_with_message` advancing at
+fuel 0 — the summary of `matchArm` in `summTbl`), item lists, parameter lists, generics, struct/enum bodies, block
+statements, argument lists and pattern lists. -/
+theorem grammar_terminates (toks : List Nat) : (parseItems toks).oof = false := parseItems_no_oof toks
+
+theorem grammar_terminates_from (n : Nat) (f : Fn) (s : PS) (hf : allFns.contains f = true) (ho : s.oof = false)
+    (hn : ranks * mu s + rkTbl.getD f.id 0 + 1 ≤ n) : (run n f s).oof = false :=
+  (run_terminates theCfg theCfg_checked n f s hf ho hn).1
+
+/-- **`file()` consumes every token** (for every token list): the cursor ends at the end of the input and the
+output holds at least one `Advance` per token. -/
+theorem file_consumes_all_tokens (toks : List Nat) :
     (parseItems toks).pos = toks.length ∧ toks.length ≤ advsL (parseItems toks).out := by
+  have h := grammar_terminates toks
   have hinv := run_inv (budget toks.length) .file (initPS toks)
   have hpos : (parseItems toks).isEof = true := by
     unfold parseItems at h ⊢
